@@ -1,9 +1,10 @@
 #!/bin/sh
-# usage: tools/sweep.sh : thorough tier of every check once, then the quick tier over several seeds
-# (background robustness sweep; its results are not evidence)
+# usage: tools/sweep.sh [thorough-ids] : thorough tier of the given checks (default: all) once, then the quick
+# tier of every check over several seeds (background robustness sweep; its results are not evidence)
 ./check --setup >/dev/null 2>&1
 ALL="C01 C02 C03 C04 C05 C06 C07 C08 C09 C10 C11 C12 C13 C14 C15 C16 C17 C18 C19 C20"
-for p in $ALL; do echo "=== $p thorough"; timeout 7200 ./check $p thorough 2>&1 | grep -E "^VIOLATION|PROOF BROKEN|Traceback|Error|done:" | cut -c1-300; done
+TH="${1:-$ALL}"
+for p in $TH; do echo "=== $p thorough"; timeout 7200 ./check $p thorough 2>&1 | grep -E "^VIOLATION|PROOF BROKEN|Traceback|Error|done:" | cut -c1-300; done
 for s in 11 12 13 14 15 16 17 18; do
   for p in $ALL; do echo "=== $p quick seed $s"; VERIF_SEED=$s timeout 3000 ./check $p quick 2>&1 | grep -E "^VIOLATION|PROOF BROKEN|Traceback|Error|done:" | cut -c1-300; done
 done
